@@ -15,7 +15,7 @@ static jmp_buf jb;
 static void my_exit(j_common_ptr c) { longjmp(jb, 1); }
 static void my_emit(j_common_ptr c, int lvl) { if (lvl < 0) c->err->num_warnings++; }
 
-static char line[1 << 16];
+static char line[1 << 18];
 
 static char *parse_tbl(char *p, JHUFF_TBL *t)
 {
@@ -39,8 +39,9 @@ int main(void)
   setvbuf(stdout, NULL, _IOLBF, 0);
   while (fgets(line, sizeof(line), stdin)) {
     struct jpeg_decompress_struct c; struct jpeg_error_mgr e; JHUFF_TBL dct, act; jpeg_component_info comp;
-    char *p = line + 3; unsigned char *data; size_t n = 0; JBLOCK *blk; JBLOCKROW rows[1]; int i, ok;
-    if (strncmp(line, "blk", 3)) { puts("?"); continue; }
+    char *p = line + 3; unsigned char *data; size_t n = 0; JBLOCK *blk; JBLOCKROW rows[1]; int i, ok, fast = 0;
+    if (!strncmp(line, "fblk", 4)) { fast = 1; p = line + 4; }
+    else if (strncmp(line, "blk", 3)) { puts("?"); continue; }
     p = parse_tbl(p, &dct);
     p = parse_tbl(p, &act);
     while (*p == ' ') p++;
@@ -65,7 +66,16 @@ int main(void)
     memset(blk, 0, sizeof(JBLOCK));
     rows[0] = blk;
     ok = (*c.entropy->decode_mcu) (&c, rows);
-    if (!ok) puts("blk susp");
+    if (!ok) puts(fast ? "fblk susp" : "blk susp");
+    else if (fast) {
+      /* the whole decode_mcu: fast path when >= BUFSIZE bytes are available; report where it stopped */
+      huff_entropy_ptr ent = (huff_entropy_ptr)c.entropy;
+      printf("fblk"); for (i = 0; i < DCTSIZE2; i++) printf(" %d", (int)(*blk)[i]);
+      if (c.unread_marker == 0 && !ent->pub.insufficient_data)
+        printf(" pos=%ld bits=%d", (long)(c.src->next_input_byte - data), ent->bitstate.bits_left);
+      else printf(" slow");
+      printf("\n");
+    }
     else { printf("blk"); for (i = 0; i < DCTSIZE2; i++) printf(" %d", (int)(*blk)[i]); printf("\n"); }
     /* the tables are on our stack: do not let jpeg_destroy look at them */
     c.dc_huff_tbl_ptrs[0] = c.ac_huff_tbl_ptrs[0] = NULL; c.comp_info = NULL;
